@@ -17,6 +17,11 @@ SPEC_P = dict(n_species=(1, 5), n_reactions=(0, 4), max_order=3, max_cells=24, g
               n_mol=(1.0, 300.0), templates=0.6, p_zero_D=0.25, chem="mixed")
 
 
+def gen_render(sp, us):
+    from .. import gen
+    return gen.render_script(Stream(ID, "dtail"), sp, us, rich=False)
+
+
 def n_cases(tier):
     return 2400 if tier == "quick" else 60000
 
@@ -47,15 +52,61 @@ def generate(seed, tier, index):
     steps = (100, 600) if long_run else (10, 80)
     if tier == "thorough" and rf.chance(0.1):
         steps = (1000, 5000)
-    entry = C.make_script_entry(rs, ru, rk, kind, p,
-                                {"steps": steps, "policy": rk.choice(["on_iteration", "on_iteration", "on_interval", "on_t_sample"]),
-                                 "nreq": (3, 12), "p_explicit_tmax": 0.7, "isp": "none" if (huge or half) else None,
-                                 "tauleap_overshoot": 0.15, "tauleap_fractional_none": 1.0 if half else 0.5},
-                                rich=rs.chance(0.4) and not huge and not half)
+    giant = kind == "tauleap" and not huge and not half and rs.chance(0.05)
+    dtail = kind == "euler" and rs.chance(0.08)
+    if dtail:
+        # diffusion alone from a point source of a few molecules along a chain of empty cells, written and run in a units
+        # system whose quantity unit is far above one molecule: the tail holds amounts like 1e-40 units, which are amounts
+        nc_ = rs.randint(8, 20)
+        vol = (rs.loguniform(0.5, 2.0) * 1e-6) ** 3
+        h_ = vol ** (1.0 / 3.0)
+        Dd = rs.loguniform(0.05, 1.0) * 1e-12
+        cour = rs.uniform(0.02, 0.2)
+        st_ = [0.0] * nc_
+        st_[rs.randint(0, nc_ - 1)] = rs.uniform(1.0, 20.0)
+        spec_t = {"envs": ["cyt"], "species": [{"label": "A", "D": [Dd], "dens": [0.0], "chst": [0]}], "reactions": [],
+                  "space": {"type": "grid", "w": nc_, "h": 1, "d": 1, "bc": [rs.choice(["reflecting", "periodical"]), "reflecting", "reflecting"],
+                            "cell_env": [0] * nc_, "vol": vol},
+                  "state": st_, "chem": None}
+        dtt = cour * h_ * h_ / Dd
+        nst = rs.randint(20, 60)
+        sp_t = {"kind": "euler", "dt": dtt, "t_sample": [0.0, (nst - 0.5) * dtt], "t_max": None, "policy": "on_iteration",
+                "interval": dtt, "seed": rk.bits(31), "isp": "auto", "ongrid": False, "steps": nst}
+        entry = C.rerender_plain({"phys": {"spec": spec_t, "sp": sp_t, "kind": "euler"}})
+        us_t = {"space": "µm", "time": "s", "quantity": rs.choice(["mol", "kmol", "mmol", "µmol"])}
+        entry["script"] = gen_render(sp_t, us_t)
+        entry["phys"]["us"] = us_t
+        entry["phys"]["eu"] = dict(us_t)
+    elif giant:
+        # one channel A -> n B firing between 2^31/n and 2^31 times in a single step of a single cell (billions of molecules
+        # of A): counts and per-step firing numbers are exact in doubles, and n*firings leaves the 32-bit range
+        n_ = rs.choice([2, 2, 3])
+        F = rs.uniform(1.15 * 2 ** 31 / n_, 0.85 * 2 ** 31)
+        kdt = rs.uniform(0.3, 0.6)
+        kdec = rs.loguniform(0.1, 10.0)
+        vol = (rs.loguniform(0.5, 2.0) * 1e-6) ** 3
+        nc_ = rs.choice([1, 2])
+        spec_g = {"envs": ["cyt"],
+                  "species": [{"label": "A", "D": [0.0], "dens": [0.0], "chst": [0]},
+                              {"label": "B", "D": [0.0], "dens": [0.0], "chst": [0]}],
+                  "reactions": [{"label": None, "sub": {"A": 1}, "prod": {"B": n_}, "kf": [kdec], "kr": [0.0]}],
+                  "space": {"type": "grid", "w": nc_, "h": 1, "d": 1, "bc": ["reflecting"] * 3, "cell_env": [0] * nc_, "vol": vol},
+                  "state": [float(int(F / kdt))] + [float(rs.randint(0, 1000))] * (nc_ - 1) + [float(rs.randint(0, 50))] * nc_,
+                  "chem": None}
+        dtg = kdt / kdec
+        sp_g = {"kind": "tauleap", "dt": dtg, "t_sample": [0.0, 2.5 * dtg, 4.5 * dtg], "t_max": None, "policy": "on_iteration",
+                "interval": dtg, "seed": rk.bits(31), "isp": "none", "ongrid": False, "steps": 5}
+        entry = C.rerender_plain({"phys": {"spec": spec_g, "sp": sp_g, "kind": "tauleap"}})
+    else:
+        entry = C.make_script_entry(rs, ru, rk, kind, p,
+                                    {"steps": steps, "policy": rk.choice(["on_iteration", "on_iteration", "on_interval", "on_t_sample"]),
+                                     "nreq": (3, 12), "p_explicit_tmax": 0.7, "isp": "none" if (huge or half) else None,
+                                     "tauleap_overshoot": 0.15, "tauleap_fractional_none": 1.0 if half else 0.5},
+                                    rich=rs.chance(0.4) and not huge and not half)
     sp = entry["phys"]["sp"]
     nrep = rf.wchoice([(1, 3), (2, 2)])
     scripts = [entry]
-    if nrep == 2 and rf.chance(0.6):
+    if nrep == 2 and rf.chance(0.6) and not giant and not dtail:
         # second set-up on the same engine object with a sibling model: same species, same number of reactions, other
         # stoichiometry and constants (what a front-end cache keyed too coarsely would confuse)
         from .. import gen
@@ -85,7 +136,7 @@ def generate(seed, tier, index):
         eps.append({"obj": 0, "kind": kind, "via": rf.choice(["LibRDEngine", "factory"]), "script": sidx, "ops": ops})
     return {"format": 1, "property": ID, "seed": seed, "tier": tier, "index": index, "build": "plain",
             "scripts": scripts, "lifetimes": [{"pyseed": rf.bits(30), "episodes": eps}],
-            "meta": {"kind": kind, "sibling": len(scripts) > 1, "huge": huge, "half": half}}
+            "meta": {"kind": kind, "sibling": len(scripts) > 1, "huge": huge, "half": half, "giant": giant, "dtail": dtail}}
 
 
 def check(case, results):
@@ -98,6 +149,10 @@ def check(case, results):
         stats["sibling_second_setup"] = 1
     if case["meta"].get("huge"):
         stats["counts_above_2^24"] = 1
+    if case["meta"].get("giant"):
+        stats["firings_per_step_above_2^31/n"] = 1
+    if case["meta"].get("dtail"):
+        stats["diffusion_tail_in_mol_units"] = 1
     if case["meta"].get("half"):
         stats["half_integer_state_untouched"] = 1
     for ei, ep in enumerate(case["lifetimes"][0]["episodes"]):
